@@ -19,7 +19,7 @@ func init() {
 		ID:          "C12",
 		Explanation: "Decided: (directives) the directive actions documented in doc/pargma.md are exactly the ones the build tests for, and the keep-original prefix in the code is the documented one; (shapes) both augment functions handle function declarations and type/value specifications (single- and multi-value), and a purged type purges its methods; (finalize) every path that marks a declaration, specification, name/value or import as removed reaches finalizeRemovals, which squeezes every such list, and import pruning follows; (imports) blank and dot imports and directive-bearing unsafe/embed imports are never pruned from a file that still has declarations; (call) all overlay files are scanned before any original file is rewritten and init is never treated as an override; the sync→nosync substitution applies to the documented package list only. NOT decided: the merged declaration multiset for arbitrary shapes; type checking of the merged package (the overlays need a Go 1.20 GOROOT).",
 		Assumptions: []string{"ast.Inspect visits comments attached to declarations"},
-		Rules:       []RuleFunc{ruleC12Directives, ruleC12Shapes, ruleC12Finalize, ruleC12Imports, ruleC12Call, ruleC12ObjectResolution, ruleC12BlankSpecKept},
+		Rules:       []RuleFunc{ruleC12Directives, ruleC12Shapes, ruleC12Finalize, ruleC12Imports, ruleC12Call, ruleC12ObjectResolution, ruleC12BlankSpecKept, ruleC12DirectiveImportByPath},
 	})
 }
 
